@@ -27,9 +27,10 @@ import (
 )
 
 const (
-	capGenerated = 100_000 // expansion cap (nodes) for grammar-generated / targeted inputs
-	capMutated   = 20_000  // cap for mutated, soup and fuzz-loop inputs
-	maxInputLen  = 64 << 10
+	capGenerated  = 100_000 // expansion cap (nodes) for grammar-generated / targeted inputs
+	capMutated    = 20_000  // cap for mutated, soup and fuzz-loop inputs
+	maxInputLen   = 64 << 10
+	capMacroBytes = 16 << 20 // cap on the estimated size of macro-expanded argument text
 
 	groupB = 1_000_000 // targeted families
 	groupC = 2_000_000 // shipped configuration files
@@ -170,6 +171,11 @@ func (h *harness) judgeAt(c *rep.Case, st *stats, in []byte, loc string, capNode
 		return verdictInfo{skipped: true, class: "skipped"}
 	}
 	sLevel, dollarToks := conditionS(toks)
+	if mb := estimateMacroBytes(toks, sLevel, capMacroBytes); mb > capMacroBytes {
+		st.count["skipped_over_macro_expansion_cap"]++
+		st.count["by_origin/"+origin+"/skipped"]++
+		return verdictInfo{skipped: true, class: "skipped"}
+	}
 
 	// attribution of process-fatal events: the input is on disk before the call
 	if h.curFile != nil {
@@ -396,6 +402,16 @@ func selfTest(t *testing.T) {
 			t.Fatalf("harness: tokenQuotable(%q) != %v", s, want)
 		}
 	}
+	for s, want := range map[string]bool{"": true, "$(": true, "$(a": true, ")$(": true, "x$()": true, "$()": false, "$(a)": false, "x$(a)y": false, "x$(a$b)": true, "$(a$(b)c)": false} {
+		if macroInert(s) != want {
+			t.Fatalf("harness: macroInert(%q) != %v", s, want)
+		}
+	}
+	for s, want := range map[string]bool{"": true, "{env:": true, "{env:}": true, "x{env:}y": true, "{env:A}": false, "{env:}x}": false, "}{env:": true, "{env:$a}": false} {
+		if envInert(s) != want {
+			t.Fatalf("harness: envInert(%q) != %v", s, want)
+		}
+	}
 	for s, want := range map[string]bool{"": true, "a": true, "$(a)": true, "x$(a.b)y$(c)": true, "$": false, "$(": false, "$(a": false, "$()": false, "$(a$(b))": false, "$$(a)": false} {
 		if tokenSatisfiesS(s) != want {
 			t.Fatalf("harness: tokenSatisfiesS(%q) != %v", s, want)
@@ -409,6 +425,26 @@ func selfTest(t *testing.T) {
 	self2 := "(a) {\n import a\n import a\n}\nimport a\n"
 	if c, _, _ := estimateExpansion(refLex([]byte(self2)), capGenerated); c <= capGenerated {
 		t.Fatalf("harness: expansion estimator does not see a self-import with fan-out 2 (cost %d)", c)
+	}
+	var mb strings.Builder
+	for k := 0; k < 40; k++ {
+		mb.WriteString("$(m) = x$(m)$(m)\n")
+	}
+	mb.WriteString("d y$(m)\n")
+	mt := refLex([]byte(mb.String()))
+	lvl, _ := conditionS(mt)
+	if c := estimateMacroBytes(mt, lvl, capMacroBytes); c <= capMacroBytes {
+		t.Fatalf("harness: macro estimator does not see 2^40 doubling (cost %d)", c)
+	}
+	mt = refLex([]byte("$(p) = \"$(\"\n$(q) = )\n$(m) = \"x$(p)m$(q)x$(p)m$(q)\"\n" + strings.Repeat("b {\n", 40) + "d y$(m)\n" + strings.Repeat("}\n", 40)))
+	lvl, _ = conditionS(mt)
+	if c := estimateMacroBytes(mt, lvl, capMacroBytes); lvl != 0 || c <= capMacroBytes {
+		t.Fatalf("harness: macro estimator does not see re-expansion doubling per nesting level (level %d cost %d)", lvl, c)
+	}
+	mt = refLex([]byte("$(a) = v\n$(b) = x$(a) $(a)\nd $(b) z$(a)\nblk {\n k $(b)\n}\n"))
+	lvl, _ = conditionS(mt)
+	if c := estimateMacroBytes(mt, lvl, capMacroBytes); c > 200 {
+		t.Fatalf("harness: macro estimator far too coarse on a benign input (cost %d)", c)
 	}
 	small := importChain(5, "backward", 2)
 	if c, _, _ := estimateExpansion(refLex([]byte(small)), capGenerated); c > 2000 {
@@ -468,7 +504,7 @@ func (h *harness) targeted() {
 	// B3: import chains / cycles / fan-out
 	i = next()
 	h.run(i, "import-chains", func(c *rep.Case, st *stats) {
-		for _, kind := range []string{"backward", "forward", "self", "cycle", "undefined-tail", "redefined"} {
+		for _, kind := range []string{"backward", "forward", "self", "cycle", "undefined-tail", "redefined", "import-with-block"} {
 			for _, k := range []int{1, 2, 3, 5, 14, 100, 254, 255, 256, 257, 258, 300} {
 				for _, fan := range []int{1, 2, 3} {
 					text := importChain(k, kind, fan)
